@@ -669,3 +669,50 @@ Theorem C02_cores_land_any_tags : forall g prefix n d input pretext o,
            /\ sc_tag sc = o_tag r /\ sc_hap sc = o_hap r.
 Proof. exact Proofs.EndToEndC02AnyTags.c02_cores_land_any_tags. Qed.
 Print Assumptions C02_cores_land_any_tags.
+
+(* ========================================================================
+   TWO HAPLOTYPES, the WHOLE pipeline: on every tiling map painted and tagged
+   as the curation discipline asks -- every bait of Pretext scaffold nm carries
+   exactly [Painted; hap(nm)], the haplotypes alternate h1, h2, h1, h2, ... down
+   the map (each H1 chromosome followed by its H2 homologue), h1 and h2 differ
+   beyond letter case, scaffold names non-empty and pairwise different, every
+   Pretext scaffold has a piece with a contig base in its core -- the whole of
+   [remap] completes (the chromosome namer pairs the homologues and raises
+   nothing).  The pairing is needed: HAP1, HAP1, HAP2 ends in ChrNamerError
+   although the first half completes. *)
+From Tola Require Proofs.CompletionTwoHaps.
+Theorem C02_two_haplotype_maps_complete :
+  forall g prefix n d input pretext h1 h2 (hapf : str -> str) k,
+  0 < d -> d <= n ->
+  Forall Proofs.Completion.input_ok input -> NoDup (map fst input) ->
+  NoDup (map key_of (Model.RemapSpec.in_frags input)) ->
+  Forall (fun f => f_tags f = []) (Model.RemapSpec.in_frags input) ->
+  Forall (fun f => f_strand f = 1 \/ f_strand f = -1) (Model.RemapSpec.in_frags input) ->
+  Forall (fun p => exists b t, snd p = RF b :: t) pretext ->
+  Forall (fun b => (f_strand b = 1 \/ f_strand b = -1) /\ In (f_name b) (map fst input))
+         (Proofs.CoreKept.baits_of pretext) ->
+  Forall (Proofs.Completion.scaffold_tiled n d (Proofs.CoreKept.baits_of pretext)) input ->
+  lower h1 <> lower h2 ->
+  Proofs.CompletionTagged.is_hap_tag h1 = true -> Proofs.CompletionTagged.is_hap_tag h2 = true ->
+  Proofs.CompletionTwoHaps.hap_baits hapf pretext ->
+  map hapf (map fst pretext) = Proofs.CompletionTwoHapsGlue.alternating h1 h2 (S k) ->
+  NoDup (map fst pretext) -> Forall (fun p => fst p <> []) pretext ->
+  Forall (fun p => exists b src x, In b (frags_of (snd p)) /\ In (f_name b, src) (number_input input 0)
+                     /\ Proofs.CoreKept.in_core (error_length (n, d)) b x /\ Proofs.CoreKept.contig_base src x) pretext ->
+  exists o, remap repaired g prefix (n, d) input pretext = Ok o.
+Proof. exact Proofs.CompletionTwoHaps.two_haplotype_maps_complete. Qed.
+Print Assumptions C02_two_haplotype_maps_complete.
+
+Theorem C02_two_haplotype_maps_need_pairing :
+  (exists rs, remap_to_input repaired Proofs.CompletionTwoHaps.TwoHapEx.g10 (s "SUPER_") (2, 1)
+                Proofs.CompletionTwoHaps.TwoHapEx.input3 Proofs.CompletionTwoHaps.TwoHapEx.pretext_bad = Ok rs)
+  /\ remap repaired Proofs.CompletionTwoHaps.TwoHapEx.g10 (s "SUPER_") (2, 1)
+       Proofs.CompletionTwoHaps.TwoHapEx.input3 Proofs.CompletionTwoHaps.TwoHapEx.pretext_bad = Err ChrNamerError.
+Proof. exact Proofs.CompletionTwoHaps.two_haplotype_maps_need_pairing. Qed.
+Print Assumptions C02_two_haplotype_maps_need_pairing.
+
+Theorem C02_two_haplotype_instance :
+  exists o, remap repaired Proofs.CompletionTwoHaps.TwoHapEx.g10 (s "SUPER_") (2, 1)
+              Proofs.CompletionTwoHaps.TwoHapEx.input Proofs.CompletionTwoHaps.TwoHapEx.pretext_ok = Ok o.
+Proof. exact Proofs.CompletionTwoHaps.two_pair_map_completes_by_theorem. Qed.
+Print Assumptions C02_two_haplotype_instance.
